@@ -192,6 +192,14 @@ def handle (line : String) : String :=
     match tp.toNat?, (if its = "-" then some [] else (its.splitOn ",").mapM parseItem) with
     | some t, some items => s!"bytes={hx (encodeItems items t)} frames={blocksStr (cryptoBlocks items)}"
     | _, _ => "bad-op"
+  | ["henc", fb, v, dc, sc, tk, kt, kl, ln] =>
+    match fb.toNat?, unhx v, unhx dc, unhx sc, unhx tk, kt.toNat?, kl.toNat?, ln.toNat? with
+    | some f, some [a, b, c, d], some dcid, some scid, some tok, some ktok, some klen, some len =>
+      let h : InitialHdr := ⟨f, a, b, c, d, dcid, scid, tok, ktok, klen⟩
+      s!"bytes={hx (encodeHdr h len)} walk={match quicHeader (encodeHdr h len ++ List.replicate len 0) with
+        | some (p, e, dc) => s!"{p}/{e}/{hx dc}"
+        | none => "none"}"
+    | _, _, _, _, _, _, _, _ => "bad-op"
   | ["uvar", h] =>
     match unhx h with
     | some b => (match uvarint b with
